@@ -1,5 +1,5 @@
 #!/bin/bash
-# usage: verify_seeded.sh <seeded-dir>...
+# usage: [NODE_SUITE=0] verify_seeded.sh <seeded-dir>...
 # For each seeded change: scratch worktree of /repo, apply patch, build, run the demo (must fail),
 # run the existing suite (must pass, demo skipped), revert the patch, run the demo (must pass).
 export GOFLAGS=-mod=mod GOPROXY=off GOSUMDB=off GOTOOLCHAIN=local
@@ -11,7 +11,8 @@ for D in "$@"; do
   cp /repo/go.sum "$WT/go.sum"
   LOC=$(python3 -c "import json;print(json.load(open('$D/meta.json')).get('demo_location',''))")
   case "$LOC" in /*) LOC=${LOC#/tmp/wt-*/};; esac
-  LOC=$(echo "$LOC" | sed 's#^/tmp/wt-C[0-9]*/##')
+  LOC=$(echo "$LOC" | sed 's#^/tmp/wt[0-9]*-C[0-9]*/##')
+  if [ -z "$LOC" ] || [ ! -f "$D/demo_test.go.txt" ]; then echo "{\"id\":\"$ID\",\"skipped\":\"no demonstration (own revert of a fix)\"}"; git -C /repo worktree remove --force "$WT"; continue; fi
   PKG=./$(dirname "$LOC")/
   RES="$D/verified.json"
   ( cd "$WT"
@@ -21,8 +22,11 @@ for D in "$@"; do
     BUILD=ok; go build ./... >/dev/null 2>&1 || BUILD=fail
     go test $TAGS -vet=off -count=1 -run 'TestSeeded' $PKG > /var/tmp/verify-$ID-demo-with.log 2>&1; WITH=$?
     go test -vet=off -count=1 -timeout 25m -skip 'TestSeeded' ./src/hashgraph/ ./src/common/ ./src/peers/ ./src/proxy/... ./src/crypto/... ./src/babble/ > /var/tmp/verify-$ID-suite.log 2>&1; SUITE=$?
-    unshare -n sh -c "ip link set lo up && go test -vet=off -count=1 -timeout 25m -skip 'TestSeeded|TestWebRTCGossip' ./src/node/" > /var/tmp/verify-$ID-node.log 2>&1; NODE=$?
-    NODEFAILS=$(grep -h "^--- FAIL" /var/tmp/verify-$ID-node.log | tr '\n' ';')
+    NODE=-1; NODEFAILS="not run (NODE_SUITE=0)"
+    if [ "${NODE_SUITE:-1}" != "0" ]; then
+      unshare -n sh -c "ip link set lo up && go test -vet=off -count=1 -timeout 25m -skip 'TestSeeded|TestWebRTCGossip' ./src/node/" > /var/tmp/verify-$ID-node.log 2>&1; NODE=$?
+      NODEFAILS=$(grep -h "^--- FAIL" /var/tmp/verify-$ID-node.log | tr '\n' ';')
+    fi
     git apply -R "$D/patch.diff"
     go test $TAGS -vet=off -count=1 -run 'TestSeeded' $PKG > /var/tmp/verify-$ID-demo-without.log 2>&1; WITHOUT=$?
     echo "{\"id\":\"$ID\",\"applies\":true,\"build\":\"$BUILD\",\"demo_with_change_exit\":$WITH,\"demo_without_change_exit\":$WITHOUT,\"suite_exit\":$SUITE,\"node_suite_exit\":$NODE,\"node_failures\":\"$NODEFAILS\",\"demo_pkg\":\"$PKG\",\"verified_at\":\"$(date -u +%FT%TZ)\"}" > "$RES"
